@@ -34,7 +34,12 @@ pub fn work_bucket(w: u64) -> &'static str {
 }
 
 pub fn panic_message(e: Box<dyn std::any::Any + Send>) -> String {
-    e.downcast_ref::<String>().cloned().or(e.downcast_ref::<&str>().map(|s| s.to_string())).unwrap_or_else(|| "panic".into())
+    let m = e.downcast_ref::<String>().cloned().or(e.downcast_ref::<&str>().map(|s| s.to_string())).unwrap_or_else(|| "panic".into());
+    // messages are part of failure signatures: drop the case-specific dump that some of chalk's panics append
+    match m.find(": ExClause") {
+        Some(i) => m[..i].to_string(),
+        None => m,
+    }
 }
 
 thread_local! {
